@@ -217,6 +217,27 @@ Definition c20_side (ti : tinfo) : bool :=
   unambiguous ti && paths_ok ti && ints_unsized ti && params_noeq ti && arrays_sized ti && ints_wf ti
   && inline_next_exact (ti_fields ti) && headed ti && prefix_plain_ok ti && std_ok ti.
 
+(* the statement evaluated by the model on a generated case (every string of the run): exactly C20_std, so it can only
+   fail if the theorem's statement and the executable definitions drift apart; [c20_applies] counts the cases on which
+   the hypotheses hold and the string is accepted (non-vacuity, reported in the evidence).  Layouts of the class that
+   violate a side condition are NOT judged: e.g. with a plain integer right after an inline field, "abc007" is accepted
+   and re-marshalled as "abc7" -- a tolerated digit respelling that the fragment-level [respell] cannot see. *)
+Definition test_c20_side (c : list sfield * bytes * obs (list (list nat * fval))) : bool :=
+  let '(st, h, _) := c in
+  match type_info st with
+  | Ok ti =>
+    if c20_side ti then
+      match unmarshal std_cb ti h with
+      | Ok m => match marshal std_cb ti (sval_of m) with
+                | Ok s' => respell_b h s'
+                | _ => false
+                end
+      | _ => true
+      end
+    else true
+  | _ => true
+  end.
+
 Theorem C20_std : forall ti s m, c20_side ti = true ->
   unmarshal std_cb ti s = Ok m -> exists s', marshal std_cb ti (sval_of m) = Ok s' /\ respell s s'.
 Proof.
